@@ -248,7 +248,9 @@ def run_one(mid, prop, rel, edit, expect, what):
     try:
         mod.run(ctx)
     except common.AnalysisError as e:
-        return (mid, prop, "analysis-error", str(e)[:200])
+        # as in run_check: violations found before the analysis got stuck still count
+        if not ctx.findings:
+            return (mid, prop, "analysis-error", str(e)[:200])
     known = common.known_keys_for(prop)
     hits = [f for f in ctx.findings if f.key not in known]
     good = [f for f in hits if expect in f.key]
